@@ -18,8 +18,8 @@ VERIF = os.path.dirname(os.path.dirname(os.path.abspath(__file__)))
 REPO = os.environ.get("VERIF_REPO", "/repo")
 SPEC = os.path.join(VERIF, "spec")
 HARNESS = os.path.join(VERIF, "harness")
-EVID = os.path.join(VERIF, "evidence")
-REPLAY = os.path.join(VERIF, "replay")
+EVID = os.path.join(VERIF, "evidence") if REPO == "/repo" else os.path.join(REPO, ".verif-evidence")
+REPLAY = os.path.join(VERIF, "replay") if os.environ.get("VERIF_REPO", "/repo") == "/repo" else os.path.join(os.environ["VERIF_REPO"], ".verif-replay")
 KNOWN = os.path.join(VERIF, "KNOWN_FINDINGS.json")
 
 GOENV = {
@@ -68,17 +68,29 @@ class Ctx:
         return d
 
     # ---------------------------------------------------------------- build
+    def _modfile(self):
+        """A go.mod for the harness whose replace directive points at REPO (default /repo), kept in
+        the scratch directory so that concurrent checks / other trees do not share state."""
+        mf = os.path.join(self.scratch, "harness.mod")
+        if not os.path.exists(mf):
+            with open(os.path.join(HARNESS, "go.mod")) as f:
+                txt = f.read()
+            txt = re.sub(r"(replace github.com/regclient/regclient => ).*", r"\g<1>" + REPO, txt)
+            with open(mf, "w") as f:
+                f.write(txt)
+            try:
+                shutil.copyfile(os.path.join(REPO, "go.sum"), os.path.join(self.scratch, "harness.sum"))
+            except OSError as e:
+                raise ToolError("cannot copy go.sum: %s" % e)
+        return mf
+
     def build(self, *cmds, tags="verif"):
-        """Build harness commands from /repo's current working tree."""
+        """Build harness commands against REPO's current working tree (hooks on)."""
         os.makedirs(self.bin, exist_ok=True)
         env = dict(os.environ)
         env.update(GOENV)
-        try:
-            shutil.copyfile(os.path.join(REPO, "go.sum"), os.path.join(HARNESS, "go.sum"))
-        except OSError as e:
-            raise ToolError("cannot copy go.sum: %s" % e)
         pk = ["./cmd/" + c for c in cmds]
-        r = subprocess.run(["go", "build", "-tags", tags, "-o", self.bin + "/"] + pk,
+        r = subprocess.run(["go", "build", "-modfile", self._modfile(), "-tags", tags, "-o", self.bin + "/"] + pk,
                            cwd=HARNESS, env=env, capture_output=True, text=True)
         if r.returncode != 0:
             raise ToolError("harness build failed:\n" + r.stdout + r.stderr)
@@ -172,8 +184,6 @@ class Ctx:
                          r"not enumerable|overridden|was not in the domain))", out)
         if hard and not res["violated"]:
             raise ToolError("TLC error on %s/%s:\n%s" % (module, cfg, out[-6000:]))
-        if hard and res["violated"] is None:
-            raise ToolError("TLC error on %s/%s:\n%s" % (module, cfg, out[-6000:]))
         res["ok"] = (r.returncode == 0 and res["violated"] is None)
         if not res["ok"] and res["violated"] is None:
             raise ToolError("TLC failed rc=%d on %s/%s:\n%s" % (r.returncode, module, cfg, out[-6000:]))
@@ -220,8 +230,7 @@ class Ctx:
         r = {"n": n, "generated": res["generated"], "distinct": res["distinct"],
              "output": out, "wall_s": res["wall_s"]}
         hw = re.findall(r'<<"HIGHWATER", (\d+), (\d+)>>', out)
-        if res["violated"] and res["violated"].startswith("Invariant") is False and \
-                re.match(r"^[A-Za-z_0-9]+$", res["violated"] or ""):
+        if res["violated"] and re.match(r"^[A-Za-z_0-9]+$", res["violated"]):
             # invariant violated in a state of the observed trace
             st = out.split("is violated", 1)[1]
             ls = re.findall(r"/\\ l = (\d+)", st) or re.findall(r"\bl = (\d+)", st)
